@@ -157,3 +157,77 @@ func (h *Harness) lazies(deep []int) {
 		}
 	}
 }
+
+// ---- the forms that DEFINE a named function: defn, the typed (func name [in] [out] body)
+// declaration (func.go: its own copy of the function prologue), a func that replaces an earlier
+// func / defn of another arity.  Bodies add 1 per iteration: (NAME D 0) = D. ----
+
+var DefBodies = []struct{ Name, Body string }{
+	{"direct", "(cond (== n 0) acc (HEAD (- n 1) (+ acc 1)))"},
+	{"let-and", "(cond (== n 0) acc (let [k 1] (and true (HEAD (- n 1) (+ acc k)))))"},
+	{"let-or-and", "(let [m (- n 1)] (or (and (< m 0) acc) (HEAD m (+ acc 1))))"},
+	{"scope-begin", "(cond (== n 0) acc (newScope (def q 1) (begin 0 (HEAD (- n 1) (+ acc q)))))"},
+	{"infix", "(cond (== n 0) acc {k = n - 1; (HEAD k {acc + 1})})"},
+	{"return-free-multi-form", "(def z 1) (cond (== n 0) acc (HEAD (- n 1) (+ acc z)))"},
+}
+
+var DefForms = []struct{ Name, Fmt string }{ // %s = body
+	{"defn", "(defn g [n acc] %s)"},
+	{"func", "(func g [n:int64 acc:int64] [r:int64] %s)"},
+	{"func-after-func-of-same-arity", "(func g [n:int64 acc:int64] [r:int64] 0) (func g [n:int64 acc:int64] [r:int64] %s)"},
+	{"defn-after-func", "(func g [n:int64] [r:int64] n) (defn g [n acc] %s)"},
+}
+
+// PendingDefForms: on the unchanged tree (8e7da1c) a func that replaces a function of ANOTHER arity is
+// not optimised (FuncBuilder does not register the function being built in knownFunctions, the
+// arity pre-check sees the old one).  Reported to the lead; enabled once the decision is made.
+var PendingDefForms = []struct{ Name, Fmt string }{
+	{"func-after-func-of-other-arity", "(func g [n:int64] [r:int64] n) (func g [n:int64 acc:int64] [r:int64] %s)"},
+	{"func-after-defn-of-other-arity", "(defn g [n] n) (func g [n:int64 acc:int64] [r:int64] %s)"},
+}
+
+func (h *Harness) defforms(deep []int) {
+	for _, df := range DefForms {
+		for _, b := range DefBodies {
+			name := "defform:" + df.Name + "/" + b.Name
+			src := func(d int, twin bool) string {
+				head := "g"
+				if twin {
+					head = "(begin g)"
+				}
+				return fmt.Sprintf(df.Fmt, strings.ReplaceAll(b.Body, "HEAD", head)) + fmt.Sprintf(" (g %d 0)", d)
+			}
+			var hw10 hw
+			for _, d := range append([]int{0, 1, 2, 3, 10}, deep...) {
+				obs, mk := h.measure(src(d, false), budgetFor(d))
+				h.counts["defform-runs"]++
+				h.out.Dist["defform:"+df.Name]++
+				want := fmt.Sprintf("V:I%d|T:", d)
+				if d <= 10 {
+					tw := h.eval(src(d, true), budgetFor(d)*3)
+					h.counts["twin-comparisons"]++
+					if tw != want {
+						want = tw + " (twin) / " + want
+					}
+					if obs != tw {
+						h.fail(Failure{Kind: "defform-twin", Shape: name, Depth: d, Source: src(d, false), Impl: obs, Expected: tw, Size: 8 + d})
+					}
+				}
+				if !strings.HasPrefix(want, obs) && obs != fmt.Sprintf("V:I%d|T:", d) {
+					h.fail(Failure{Kind: "defform-value", Shape: name, Depth: d, Source: src(d, false), Impl: obs, Expected: want, Size: 8 + d/50})
+				}
+				if d == 10 {
+					hw10 = mk
+				}
+				if d > 10 {
+					if mk != hw10 {
+						h.fail(Failure{Kind: "defform-space", Shape: name, Depth: d, Source: src(d, false),
+							Impl: "high-water marks data,scope,addr,loop = " + mk.String(), Expected: "as at depth 10 = " + hw10.String(),
+							Note: "a self tail call in a function defined by this form is not a jump: the stacks grow with the depth", Size: 30})
+					}
+					h.counts["space-comparisons"]++
+				}
+			}
+		}
+	}
+}
